@@ -431,8 +431,19 @@ def do_op(proc, op):
             return line, "ok", None
         if kind == "startwp":
             line = f"startwp {jc(hx(n) + '=' + enc_val(v) for n, v in op[1])}"
-            proc.start_with_params(**dict(op[1]))
-            return line, "ok", None
+            captured = {}
+            orig = proc.set_par_multiple
+
+            def tap(params):                 # what start_with_params hands to the batch writer
+                captured["params"] = list(params.items())
+                return orig(params)
+
+            proc.set_par_multiple = tap
+            try:
+                proc.start_with_params(**dict(op[1]))
+            finally:
+                del proc.set_par_multiple
+            return line, "ok", captured.get("params")
     except (ValueError, TypeError, KeyError) as e:
         line = {"get": lambda: f"get {hx(op[1])}", "set": lambda: f"set {hx(op[1])} {enc_val(op[2])}",
                 "mget": lambda: f"mget {jc(hx(n) for n in op[1])}",
@@ -796,12 +807,16 @@ def run_device_ops(param_info, types: dict, ops, res: Result | None, fails: list
             count("op_" + op[0])
             if out.startswith("exc:"):
                 count("op_error_" + out[4:])
-        if op[0] in ("mget", "mset", "startwp") and in_domain(op, param_info.param, arrays):
+        oop = op
+        if op[0] == "startwp" and isinstance(raw, list):
+            # judged as the batch write it performs (the zero-fill policy itself is not part of the property)
+            oop = ("mset", raw)
+        if oop[0] in ("mget", "mset") and in_domain(oop, param_info.param, arrays):
             exc = raw if isinstance(raw, BaseException) else None
-            bad = oracle_batch(proc, lib, op, param_info.param, arrays, pre, raw, exc)
+            bad = oracle_batch(proc, lib, oop, param_info.param, arrays, pre, raw, exc)
             if count:
                 count("batch_ops_in_domain")
-                count("batch_class_" + class_of(op, param_info.param))
+                count("batch_class_" + class_of(oop, param_info.param))
             if bad:
                 fails.append((bad[0], bad[1], op))
     return lines, outs
